@@ -463,6 +463,103 @@ Proof.
   pose proof (split_nl_nonempty desc []) as H. destruct (pe_split_nl [] desc); [congruence|discriminate].
 Qed.
 
+(* ------------------------------------------------------------------ *)
+(* the whole file: File.WriteTo, then the loop of po.Parse               *)
+(* ------------------------------------------------------------------ *)
+
+(* what the extractor knows of a message: description, id, plural variable, quoted fields *)
+Definition xentry : Type := (bstr * N * option bstr * po_fields)%type.
+Definition xentry_ok (t : xentry) : Prop := let '(_, _, pv, f) := t in var_ok pv /\ fields_bytes f.
+Definition xentry_msg (t : xentry) : pe_message := let '(desc, id, pv, f) := t in pe_extract_entry desc id pv f.
+(* ... and what Parse makes of its entry *)
+Definition xentry_read (t : xentry) : pe_message :=
+  let '(desc, id, pv, f) := t in
+  {| pm_comment := {| pc_translator := []; pc_extracted := map (fun d => trim_space (drop_cr d)) (pe_split_nl [] desc);
+                      pc_refs := refs_of id pv; pc_flags := [];
+                      pc_prev_ctxt := []; pc_prev_id := []; pc_prev_id_plural := [] |};
+     pm_fields := {| pf_ctxt := pf_ctxt f; pf_id := pf_id f; pf_id_plural := pf_id_plural f; pf_str := norm_str f |} |}.
+Definition xentry_lines (t : xentry) : list bstr :=
+  let '(desc, id, pv, f) := t in
+  map (fun d => pe_w_extracted ++ d) (map drop_cr (pe_split_nl [] desc)) ++ (pe_w_reference ++ pe_reference id pv) :: po_write_fields f.
+
+Lemma join_lines_app a c : join_lines (a ++ c) = join_lines a ++ join_lines c.
+Proof. unfold join_lines. apply flat_map_app. Qed.
+
+Lemma file_lines : forall es, Forall xentry_ok es ->
+  scan_lines [] (pe_write_file is_print (map xentry_msg es)) = flat_map (fun t => xentry_lines t ++ [[]]) es.
+Proof.
+  induction es as [|t es IH]; intro H; [reflexivity|]. destruct t as [[[desc id] pv] f].
+  inversion H as [|? ? Hok Hes]; subst. unfold xentry_ok in Hok. destruct Hok as [Hv Hf]. unfold pe_write_file in *. cbn [map flat_map xentry_msg].
+  rewrite <- app_assoc, join_lines_app. change (join_lines ([[]] ++ ?x)) with (10 :: join_lines x).
+  unfold pe_extract_entry. rewrite entry_bytes_lines; [|apply split_nl_free; constructor|exact Hv].
+  rewrite IH by exact Hes. cbn [xentry_lines]. rewrite <- !app_assoc. reflexivity.
+Qed.
+
+Lemma trim_left_tail_len (x : bstr) : (2 <= length (trim_left (x ++ [46%N; 35%N])))%nat.
+Proof.
+  induction x as [|c x IH]; [vm_compute; lia|]. cbn [app trim_left]. destruct (is_space c); [exact IH|].
+  cbn [length]. rewrite app_length. cbn. lia.
+Qed.
+
+Lemma extracted_line_counts d : Nat.ltb 1 (length (trim_space (pe_w_extracted ++ d))) = true.
+Proof.
+  apply Nat.ltb_lt. unfold trim_space. rewrite rev_length.
+  change (trim_left (pe_w_extracted ++ d)) with (35 :: 46 :: 32 :: d).
+  replace (rev (35 :: 46 :: 32 :: d)) with ((rev d ++ [32]) ++ [46; 35]) by (cbn [rev]; rewrite <- !app_assoc; reflexivity).
+  pose proof (trim_left_tail_len (rev d ++ [32])). lia.
+Qed.
+
+Lemma xentry_lines_first t : exists d more, xentry_lines t = (pe_w_extracted ++ d) :: more.
+Proof.
+  destruct t as [[[desc id] pv] f]. cbn [xentry_lines]. pose proof (split_nl_nonempty desc []) as H.
+  destruct (pe_split_nl [] desc) as [|d ds]; [congruence|]. cbn [map app]. eauto.
+Qed.
+
+(* one turn of the loop of Parse on an entry of the extractor *)
+Lemma parse_turn t R c fuel : xentry_ok t ->
+  '(more, s1) <- pe_nextmsg (S fuel) {| sc_cur := c; sc_rest := xentry_lines t ++ [] :: R; sc_err := false |} ;;
+  (if negb more then Ok (None, s1) else '(m, s2) <- pe_read_message s1 ;; Ok (Some m, s2))
+  = Ok (Some (xentry_read t), {| sc_cur := []; sc_rest := R; sc_err := false |}).
+Proof.
+  intro Hok. destruct (xentry_lines_first t) as (d & more & El).
+  cbn [pe_nextmsg sc_err]. unfold sc_scan. cbn [sc_rest]. rewrite El. cbn [app sc_cur sc_err].
+  rewrite extracted_line_counts. cbn [negb bind].
+  change {| sc_cur := pe_w_extracted ++ d; sc_rest := more ++ [] :: R; sc_err := false |}
+    with (scan_of (((pe_w_extracted ++ d) :: more) ++ [] :: R) false).
+  rewrite <- El. destruct t as [[[desc id] pv] f]. destruct Hok as [Hv Hf]. cbn [xentry_lines].
+  rewrite <- app_assoc. cbn [app].
+  rewrite read_entry_lines; [cbn [bind xentry_read]; rewrite map_map; reflexivity| |exact Hv|exact Hf|reflexivity].
+  pose proof (split_nl_nonempty desc []) as H. destruct (pe_split_nl [] desc); [congruence|discriminate].
+Qed.
+
+Lemma parse_loop_entries : forall es acc c fuel, Forall xentry_ok es -> (length es < fuel)%nat ->
+  pe_parse_loop fuel acc {| sc_cur := c; sc_rest := flat_map (fun t => xentry_lines t ++ [[]]) es; sc_err := false |}
+  = Ok (acc ++ map xentry_read es, {| sc_cur := []; sc_rest := []; sc_err := false |}).
+Proof.
+  induction es as [|t es IH]; intros acc c fuel H Hf; (destruct fuel as [|fuel]; [cbn in Hf; lia|]).
+  - cbn [flat_map pe_parse_loop sc_rest length pe_nextmsg sc_err]. unfold sc_scan. cbn [sc_rest sc_err negb bind]. rewrite app_nil_r. reflexivity.
+  - inversion H as [|? ? Ht Hes]; subst. cbn [flat_map pe_parse_loop sc_rest].
+    rewrite <- app_assoc. cbn [app].
+    pose proof (parse_turn t (flat_map (fun t0 => xentry_lines t0 ++ [[]]) es) c
+                  (S (length (xentry_lines t ++ [] :: flat_map (fun t0 => xentry_lines t0 ++ [[]]) es))) Ht) as Hturn.
+    destruct (pe_nextmsg _ _) as [[more s1]| | | | | ]; cbn [bind] in Hturn |- *; try discriminate.
+    destruct more; cbn [negb] in Hturn |- *; [|discriminate].
+    destruct (pe_read_message s1) as [[m s2]| | | | | ]; cbn [bind] in Hturn |- *; try discriminate.
+    inversion Hturn; subst. rewrite IH; [|exact Hes|cbn in Hf; lia].
+    cbn [map]. rewrite <- app_assoc. reflexivity.
+Qed.
+
+(* THE FILE xgettext-soy writes for any list of messages (any descriptions), read by po.Parse: every entry
+   comes back, in order, with its references and quoted fields; no error *)
+Theorem parse_extracted_file (es : list xentry) : Forall xentry_ok es ->
+  pe_parse (pe_write_file is_print (map xentry_msg es)) = Ok (map xentry_read es).
+Proof.
+  intro H. unfold pe_parse. rewrite file_lines by exact H.
+  rewrite parse_loop_entries; [reflexivity|exact H|].
+  clear H. induction es as [|t es IH]; [cbn; lia|]. cbn [flat_map length]. rewrite !app_length.
+  destruct (xentry_lines_first t) as (d & more & El). rewrite El. cbn [length] in *. lia.
+Qed.
+
 End Po.
 
 (* ------------------------------------------------------------------ *)
